@@ -18,22 +18,28 @@ CONSTANTS L0, L1,     \* lengths of the input and of the decode target
           Types, Kinds,   \* hit types ("" is the root's type) and value kinds on the input
           Types1, Kinds1, \* ... and on the decode target
           Slack,          \* 0 for in-bounds worlds
-          MinStart        \* smallest hit start (1: everything happens at non-zero offsets, where the frames differ)
+          MinStart,       \* smallest hit start (1: everything happens at non-zero offsets, where the frames differ)
+          HighAt          \* 0, or the position of the input that holds a byte above 127 (0xC8) instead of a letter
 
 \* named depth-limit sets for configuration files (cfg syntax has no negative numbers)
 K_m1_2_4 == {-1, 2, 4}
 K_m5_0_1 == {-5, 0, 1}
 
 Letters(base, n) == Tup([i \in 1..n |-> base + i - 1])
-Input  == Letters(97, L0)                       \* "abc"
+Input  == Tup([i \in 1..L0 |-> IF i = HighAt THEN 200 ELSE 96 + i])      \* "abc", or e.g. "a\xC8c"
 Target == Letters(100 + L0, L1)                 \* distinct from the input's letters
 Leaf   == <<122>>
 FlipB(b) == IF b >= 97 /\ b <= 122 THEN b - 32 ELSE IF b >= 65 /\ b <= 90 THEN b + 32 ELSE b
 Flip(s)  == Tup([i \in 1..Len(s) |-> FlipB(s[i])])
+\* two decodings that a text-level comparison would take for "nothing changed": bytes above 127 dropped (what decoding with
+\* errors="ignore" does), and the Latin-1 letter 0xC8 in its other case 0xE8 (bytes.lower() is ASCII-only: for the engine both are decodings)
+Strip(s) == SelectSeq(s, LAMBDA b : b < 128)
+HiFlip(s) == Tup([i \in 1..Len(s) |-> IF s[i] = 200 THEN 232 ELSE IF s[i] = 232 THEN 200 ELSE s[i]])
 
 Slices(s) == {SubSeq(s, a + 1, b) : a \in 0..Len(s), b \in 0..Len(s)} \ {<<>>}
 TextSet == {Input, Target, Leaf, <<>>} \cup Slices(Input) \cup Slices(Target)
            \cup {Flip(x) : x \in Slices(Input) \cup Slices(Target)}
+           \cup (IF HighAt > 0 THEN {Strip(x) : x \in Slices(Input)} \cup {HiFlip(x) : x \in Slices(Input)} ELSE {})
 \* text table: 1 = input, 2 = target, 3 = leaf, then the rest in a fixed order
 TextTable == <<Input, Target, Leaf>> \o SetToSeq(TextSet \ {Input, Target, Leaf})
 Id(x) == CHOOSE i \in 1..Len(TextTable) : TextTable[i] = x
@@ -48,6 +54,8 @@ ValOf(t, sp, kind) ==
     [] kind = "leaf"   -> 3
     [] kind = "self"   -> t
     [] kind = "kid"    -> 3
+    [] kind = "strip"  -> Id(Strip(sl))
+    [] kind = "hiflip" -> Id(HiFlip(sl))
 HitRecs(t, types, kinds) ==
   { [s |-> sp[1], e |-> sp[2], ty |-> ty, obf |-> "", val |-> ValOf(t, sp, kind),
      kids |-> IF kind = "kid" THEN <<LeafKid>> ELSE <<>>] :
